@@ -9,6 +9,8 @@ import (
 	"encoding/json"
 	"fmt"
 	"reflect"
+	"sort"
+	"strings"
 
 	"verif/dsim/choice"
 	"verif/dsim/harness"
@@ -23,7 +25,7 @@ type H struct {
 func (H) ID() string { return "C05" }
 
 // Version implements harness.Harness.
-func (H) Version() string { return "c05-v2" }
+func (H) Version() string { return "c05-v3" }
 
 // Runs implements harness.Harness.
 func (H) Runs(tier string) int {
@@ -38,7 +40,7 @@ func (H) Meta() harness.Meta {
 	return harness.Meta{
 		Rule: "each run = one seeded workload (the C11 generator: copies on sub-ranges, copy kernels, queued and synchronous, emulation platforms with 1-4 GPUs and the shipped r9nano/mi300a timing platforms with the DMA path) executed 5 times in fresh processes with the event order of the stock SerialEngine (faithful mode): " +
 			"once under the canonical host schedule, twice under different drawn host schedules (at every yield point of the real driver threads and between engine events the controller draws which of application thread, runAsync and engine goroutine runs; engine bursts of drawn length), and once more each with the first drawn schedule and the canonical schedule under another GOMAXPROCS (a replay repeats these same-schedule runs 8 more times: a run-to-run difference is not a function of the seed). " +
-			"Observables: simulated time at every return of a driver API call, final simulated time, number of engine events, digest of all device buffers. Oracle: R1 equal for the same host schedule across processes / GOMAXPROCS; R2a times and event counts equal across host schedules; R2b data equal across host schedules. " +
+			"Observables: simulated time at every return of a driver API call, final simulated time, number of engine events, digest of all device buffers, and on timing platforms every row that amd/samples/runner/report.go writes under -report-all (kernel time per driver / command processor, instruction counts, CPI stack and SIMD CPI stack per compute unit via the repository's cu.CPIStackTracer, cache latency and hit/miss step counts, TLB hit/miss counts, RDMA transaction counts and latencies, DRAM transaction counts, SIMD busy time: the same akita tracers on the same components with the same filters; the runner's two package-private tracers are replaced by plain counters), compared bit for bit per group. Oracle: R1 all of these equal for the same host schedule across processes / GOMAXPROCS (counters are compared under R1 only: across host schedules simulated time itself differs, known finding R2a); R2a times and event counts equal across host schedules; R2b data equal across host schedules. " +
 			"non-trivial = the drawn schedules differ from the canonical one by at least 2 context switches; distinct = distinct (workload digest, schedule digests)",
 		RealComponents: []string{"everything of C11/C12: real driver threads, command processor, DMA engine, memory system, emulation or shipped timing platforms"},
 		StubComponents: []string{"engine (SeededEngine in faithful mode: event order identical to sim.SerialEngine)", "goroutine controller (gosched) inside testing/synctest"},
@@ -48,7 +50,7 @@ func (H) Meta() harness.Meta {
 			"Go map iteration order cannot be controlled; the 4 processes per workload sample it",
 		},
 		FaultKinds:     []string{"host_schedule"},
-		ExpectedProbes: []string{"timing_platform", "schedules_with_switches", "gomaxprocs_varied"},
+		ExpectedProbes: []string{"timing_platform", "schedules_with_switches", "gomaxprocs_varied", "reported_counters_compared"},
 		PerRunTimeoutS: 600,
 		ShrinkBudget:   12,
 	}
@@ -59,6 +61,25 @@ type obs struct {
 	Times  []float64 `json:"times_at_api_returns"`
 	Events uint64    `json:"events"`
 	Data   string    `json:"data_digest"`
+	// Counters: digest per group of the rows the reporter would write (timing platforms)
+	Counters map[string]string `json:"counters"`
+}
+
+// diffCounters names the groups of reported counters that differ.
+func diffCounters(a, b obs) string {
+	var groups []string
+	for g, v := range a.Counters {
+		if b.Counters[g] != v {
+			groups = append(groups, g)
+		}
+	}
+	for g := range b.Counters {
+		if _, ok := a.Counters[g]; !ok {
+			groups = append(groups, g)
+		}
+	}
+	sort.Strings(groups)
+	return strings.Join(groups, ",")
 }
 
 func extract(r harness.Result) (obs, int, bool) {
@@ -135,6 +156,9 @@ func (h H) Run(ch *choice.Source, opt harness.Options) harness.Result {
 		if r.Probes["dma_path"] > 0 {
 			res.Probes["timing_platform"] = 1
 		}
+		if len(o.Counters) > 0 {
+			res.Probes["reported_counters_compared"] = 1
+		}
 	}
 	res.Faults["host_schedule"] = uint64(switches[1] + switches[2])
 	if switches[1] >= 2 && switches[2] >= 2 {
@@ -162,11 +186,15 @@ func (h H) Run(ch *choice.Source, opt harness.Options) harness.Result {
 		return ""
 	}
 	// R1: every repetition of a schedule must agree with its first run
-	r1 := ""
+	r1, r1c, r1cGroups := "", "", ""
 	for i := 3; i < len(specs); i++ {
 		ref := 1
 		if specs[i].sched == "canonical" {
 			ref = 0
+		}
+		if d := diffCounters(all[ref], all[i]); d != "" && all[ref].Data == all[i].Data && diffTimes(all[ref], all[i]) == "" {
+			r1c = fmt.Sprintf("the same workload under the same controlled host schedule reported different counters in two processes (GOMAXPROCS default vs %d) although data, simulated times and event count agree; counter groups that differ: %s", specs[i].procs, d)
+			_ = r1cGroups
 		}
 		if all[ref].Data != all[i].Data || diffTimes(all[ref], all[i]) != "" {
 			r1 = fmt.Sprintf("the same workload under the same controlled host schedule gave different observables in two processes (GOMAXPROCS default vs %d): %s | %s", specs[i].procs, describe(ref), describe(i))
@@ -178,6 +206,10 @@ func (h H) Run(ch *choice.Source, opt harness.Options) harness.Result {
 		res.Rule, res.Signature = "R1", "same-schedule-differs-across-processes"
 		res.Detail = r1
 		// by this very verdict the event order is not a function of the seed: the replay identity is the seeds
+		res.OrderDigest = w*1099511628211 ^ s1*31 ^ s2
+	case r1c != "":
+		res.Rule, res.Signature = "R1", "reported-counters-differ-across-processes"
+		res.Detail = r1c
 		res.OrderDigest = w*1099511628211 ^ s1*31 ^ s2
 	case all[0].Data != all[1].Data || all[0].Data != all[2].Data:
 		res.Rule, res.Signature = "R2b", "device-data-differs-across-host-schedules"
